@@ -111,7 +111,10 @@ func (vc *FuncVC) doBuiltin(st *State, fr *Frame, instr ssa.Instruction, cc *ssa
 		st.assume(eq(app("card_"+sortName(ks), empty), "0"))
 	case "print", "println":
 	case "recover":
-		set(V{"nilI", SIface, nil})
+		// panics of user callbacks are not modelled, so what a function does after catching one cannot be
+		// verified: a recover() makes the function unverifiable instead of being read as "returns nil"
+		vc.unsupportedf("recover(): the paths on which a panic is caught are not modelled")
+		panic(abortPath{"recover"})
 	default:
 		vc.unsupportedf("builtin %s", b.Name())
 		panic(abortPath{"builtin"})
